@@ -163,7 +163,8 @@ def c18_3(c: Ctx) -> None:
             c.fail(u, f'the temporary handler never applies the caller\'s filter(s) {missing}', f'the {"deprecated predicate" if missing == ["predicate"] else "include"} filter is ignored: expect() can return an event that does not match', node=sn.ast)
             continue
         atoms = {f'{fut}.done()', f'exclude({ev})'} | {f'{f}({ev})' for f in chosen}
-        facts = Facts(lambda a: a in atoms, cg=None)
+        # (the temporary handler is synchronous and the future is private to this expect() call: the caller's filters, opaque callbacks, cannot resolve it)
+        facts = Facts(lambda a: a in atoms, cg=None, stable={f'{fut}.done()'} if not h.is_async else set())
         guard = ' and '.join([f'not {fut}.done()'] + [f'{f}({ev})' for f in chosen] + ([f'not exclude({ev})'] if 'exclude' in params else []))
         p = q.guard_search(g, sn, guard, facts)
         if p is None:
